@@ -470,4 +470,26 @@ theorem done_cls_29 (s : CS) (h : liveInv s = true) (hd : doneInv s = true) (hc 
   rw [h7, h4, h8]
   simpa using hd
 
+theorem lG8_pol_of_mu (t : CS) (h : mu t ≤ 32) : polInv t = true := by
+  unfold polInv
+  split
+  · simp [h]
+  · rfl
+
+theorem pol_cls_27 (s : CS) (h : liveInv s = true) (hp : polInv s = true) (hc : cls s = 27) :
+    ∀ s', round s = some s' → polInv s' = true := by
+  obtain ⟨s1, _, h1, _, _, h4, _⟩ := lG8_step27 s h hc
+  intro s' hs'
+  rw [h1] at hs'
+  cases hs'
+  exact lG8_pol_of_mu _ (by rw [h4]; decide)
+
+theorem pol_cls_29 (s : CS) (h : liveInv s = true) (hp : polInv s = true) (hc : cls s = 29) :
+    ∀ s', round s = some s' → polInv s' = true := by
+  obtain ⟨s1, _, h1, _, _, h4, _⟩ := lG8_step29 s h hc
+  intro s' hs'
+  rw [h1] at hs'
+  cases hs'
+  exact lG8_pol_of_mu _ (by rw [h4]; decide)
+
 end RV.Lemmas.ClosedLoop
